@@ -164,6 +164,24 @@ def main():
             except Exception as exc:
                 ck.count("misuse-rejected:" + type(exc).__name__)
         ck.case(("misuse", name), nontrivial=True)
+    # a prefix with NO open descriptor (a complete molecule) handed to the next element: token level, object level, and molecule strings in
+    # which an element follows something that is already closed (the same guard, reached through Molecule.generate)
+    from gbigsmiles.mol_gen import MolGen
+    for name, make in [
+        ("token-after-closed-prefix", lambda: gbigsmiles.SmilesToken("[$]CCO", 0, 0).generate(MolGen(gbigsmiles.SmilesToken("CC", 0, 0)), np.random.default_rng(1))),
+        ("token-after-closed-prefix-2", lambda: gbigsmiles.SmilesToken("CCO", 0, 0).generate(MolGen(gbigsmiles.SmilesToken("CC", 0, 0)), np.random.default_rng(1))),
+        ("object-after-closed-prefix", lambda: gbigsmiles.Stochastic("{[$][$]CC[$]; [$]N []}|uniform(10, 50)|", 0).generate(MolGen(gbigsmiles.SmilesToken("CC", 0, 0)), np.random.default_rng(1))),
+        ("suffix-after-closed-object", lambda: gbigsmiles.Molecule("CC{[$][$]CC[$]; [$]C[]}|uniform(20, 40)|CCO").generate(rng=np.random.default_rng(1))),
+        ("object-after-closed-object", lambda: gbigsmiles.Molecule("CC{[$][$]CC[$]; [$]C[]}|uniform(20, 40)|{[$][$]CO[$]; [$]N[]}|uniform(20, 40)|").generate(rng=np.random.default_rng(1))),
+    ]:
+        with warnings.catch_warnings():
+            warnings.simplefilter("ignore")
+            try:
+                res = make()
+                ck.fail("misuse-not-rejected", {"misuse": name}, f"a prefix without any open descriptor was accepted; returned {getattr(res, 'smiles', res)}")
+            except Exception as exc:
+                ck.count("misuse-rejected:" + type(exc).__name__)
+        ck.case(("misuse", name), nontrivial=True)
     ck.rule = ("every generated valid molecule x every breaking operator applicable to it (one rule violated at a random position), byte-level mutations of valid "
                "and documented strings (delete / duplicate / swap / insert) for termination and accept-reject agreement with the model, and the misuse calls of "
                "generation; non-trivial = operator cases; distinct by text")
